@@ -68,6 +68,9 @@ class ModelRun:
 
 
 def crash_result(run, classes=()):
+    if run.ans.died and str(run.ans.died).startswith("timeout"):
+        # a per-scenario wall-clock cap hit is inconclusive (machine load), never a verdict
+        return Result("ok", list(classes) + ["timeout-inconclusive"], False)
     d = run.describe()
     d["what"] = "runner process died: %s" % run.ans.died
     sig = "crash:" + crash_signature(run.ans.stderr)
